@@ -11,7 +11,9 @@ EXTENDS Framing, TLC, Json
 CONSTANTS MaxLen,      \* bound on the total number of statements (opens + leaves + closes)
           StepMode,    \* TRUE: walk the automaton token by token (action Consume)
           DeclSet,     \* declaration value kinds used
-          CpropSet, CmtSet, RuleSet
+          CpropSet, CmtSet, RuleSet,
+          AtAttr,      \* where the non-ASCII text of an at-rule sits: subset of {"-", "na", "name"}
+          Extra        \* further statement kinds enabled: subset of {"sup", "kf", "imp"}
 
 VARIABLES prog, stack, phase, pos, st
 vars == <<prog, stack, phase, pos, st>>
@@ -31,13 +33,17 @@ Leaf(k, a) == /\ Room >= 1
 Build ==
   /\ phase = "build"
   /\ UNCHANGED <<phase, pos, st>>
-  /\ \/ Ctx \in {"top", "media", "atb"} /\ \E a \in RuleSet : Open("rule", a)
-     \/ Ctx \in {"top", "atb"} /\ Open("media", "-")
-     \/ Ctx \in {"top", "media"} /\ Open("atb", "-")
-     \/ Ctx \in {"rule", "atb"} /\ \E a \in DeclSet : Leaf("decl", a)
+  /\ \/ Ctx \in {"top", "media", "atb", "sup"} /\ \E a \in RuleSet : Open("rule", a)
+     \/ Ctx \in {"top", "atb"} /\ \E a \in AtAttr \ {"name"} : Open("media", a)
+     \/ Ctx \in {"top", "media"} /\ \E a \in AtAttr : Open("atb", a)
+     \/ "sup" \in Extra /\ Ctx \in {"top", "media"} /\ \E a \in AtAttr \ {"name"} : Open("sup", a)
+     \/ "kf" \in Extra /\ Ctx \in {"top", "media"} /\ \E a \in AtAttr \ {"name"} : Open("kf", a)
+     \/ "kf" \in Extra /\ Ctx = "kf" /\ \E a \in RuleSet : Open("kfs", a)
+     \/ "imp" \in Extra /\ Ctx = "top" /\ \E a \in AtAttr \ {"name"} : Leaf("imp", a)
+     \/ Ctx \in {"rule", "atb", "kfs"} /\ \E a \in DeclSet : Leaf("decl", a)
      \/ Ctx = "rule" /\ \E a \in CpropSet : Leaf("cprop", a)
-     \/ \E a \in CmtSet : Leaf("cmt", a)
-     \/ Ctx \in {"top", "atb"} /\ Leaf("ats", "-")
+     \/ Ctx # "kf" /\ \E a \in CmtSet : Leaf("cmt", a)
+     \/ Ctx \in {"top", "atb"} /\ \E a \in AtAttr : Leaf("ats", a)
      \/ /\ stack # <<>>
         /\ prog' = Append(prog, S("close", "-")) /\ stack' = SubSeq(stack, 1, Len(stack) - 1)
 
